@@ -271,7 +271,7 @@ class Run:
                 continue
             seen.add(key)
             n_new_distinct += 1
-            if n_new_distinct > 40:
+            if n_new_distinct > 12:
                 continue
             h = hashlib.sha1(json.dumps(key).encode()).hexdigest()[:12]
             path = os.path.join(REPLAY, "%s-%s.json" % (self.prop, h))
@@ -279,7 +279,7 @@ class Run:
                 json.dump({"property": self.prop, "symptom": v["symptom"], "shape": v.get("shape", ""),
                            "detail": v.get("detail", ""), "case": v["witness"]}, fh, indent=1, ensure_ascii=False)
             print("VIOLATION property=%s replay=%s" % (self.prop, path))
-            sys.stderr.write("  symptom=%s shape=%s\n  detail=%s\n" % (v["symptom"], v.get("shape", "")[:300], str(v.get("detail", ""))[:600]))
+            sys.stderr.write("  symptom=%s shape=%s\n  detail=%s\n" % (v["symptom"], v.get("shape", "")[:200], str(v.get("detail", ""))[:300]))
             code = 1
         cov = self.coverage
         cov.setdefault("known_finding_hits", self.known_hits)
